@@ -6,11 +6,11 @@
 //
 // Assumed here (each is the documented behaviour of the std function, panics / capacity overflow aside):
 //   S1  str::repeat(s, n)        r@ == repeat_v(s@, n)            (n copies of s, concatenated)
-//   S2  String + &str            r@ == a@ + b@                    (concatenation)
+//   S2  String + &str            r@ == a@ + b@                    (concatenation; stated on a @wrapexpr helper in the unit)
 //   S3  str::split(c)            the iterator is non-empty and its FIRST piece is the text before the first
 //                                occurrence of c (all of the text if c does not occur)  -- axiom_split_first, on
 //                                the uninterpreted `split_v` of prelude/iter_slice.rs (vp_split)
-//   S4  Option::<String>::unwrap_or_default   Some(x) => x, None => the empty string
+//   (Option::unwrap_or_default and String::default are specified by vstd: None => the empty string)
 //   S5  "."@ is the one-character sequence ['.']                  -- PROVED (reveal_strlit), not assumed
 //   S6  rustpython `Int::to_usize` is a function `int_v` of the (opaque) Int
 
@@ -23,9 +23,9 @@ pub open spec fn repeat_v(s: Seq<char>, n: nat) -> Seq<char>
 /// S1
 pub assume_specification[ str::repeat ](s: &str, n: usize) -> (r: String)
     ensures r@ == repeat_v(s@, n as nat);
-/// S2
-pub assume_specification[ <String as core::ops::Add<&str>>::add ](a: String, b: &str) -> (r: String)
-    ensures r@ == a@ + b@;
+// S2: `String + &str` makes this Verus crash ("codegen_select_candidate failed"), with or without an
+// assume_specification for `<String as Add<&str>>::add`; the unit moves the expression `dots + &module`,
+// verbatim, into an external_body helper (@wrapexpr) whose contract is  r@ == dots@ + module@.
 
 /// the text before the first occurrence of c (all of s if there is none)
 pub open spec fn prefix_before(s: Seq<char>, c: char) -> Seq<char>
@@ -40,17 +40,8 @@ pub mod str_dotted_ax {
     /// S3
     pub broadcast axiom fn axiom_split_first(s: Seq<char>, c: char)
         ensures (#[trigger] split_v(s, c)).len() >= 1, split_v(s, c)[0] == prefix_before(s, c);
-    /// S4: what `String::default()` is, seen through `Option::unwrap_or_default`
-    pub broadcast axiom fn axiom_default_string(r: String)
-        ensures #[trigger] is_default_v::<String>(r) <==> r@ == Seq::<char>::empty();
 }
 pub use str_dotted_ax::*;
-
-/// "r is `T::default()`" (pinned down for String only)
-pub uninterp spec fn is_default_v<T>(r: T) -> bool;
-/// S4
-pub assume_specification<T: core::default::Default>[ Option::<T>::unwrap_or_default ](o: Option<T>) -> (r: T)
-    ensures match o { Some(x) => r == x, None => is_default_v(r) };
 
 /// S6: the number an `Int` holds (rustpython_ast `Int(u32)`; `to_usize` is `self.0 as usize`)
 pub uninterp spec fn int_v(i: rustpython_parser::ast::Int) -> usize;
